@@ -29,6 +29,9 @@ CHECKS = {
  'C10': dict(tech='Verus contracts (projection = viewport o perspective divide o proj*mv; unprojection = perspective divide o adj/det inverse of proj*mv o un-viewport; picking matrix from its clip-square requirement) on the extracted world_to_viewport_*/viewport_to_world_*/picking_region (through the real Mul, inverted, shuffle code) + z3 lemma for the picking corners',
              text='Deductive proof: world_to_viewport_no/zo equal the perspective-divided clip position mapped onto the viewport rectangle (depth to [0,1] in the no flavour, unchanged in zo) whenever clip w != 0; viewport_to_world_no/zo equal the perspective divide of (proj*mv)^-1 applied to the un-viewported point whenever det(proj*mv) != 0 (the inverse being adj/det, proved two-sided under C06); picking_region equals the matrix that maps the window rectangle centre +- delta/2, expressed in clip coordinates, onto [-1,1]^2 (theorem function + lemma), both layouts.',
              note=TB + 'Genuine defect found and repaired (fix: commit): picking_region operand order. The project/unproject round trip is not discharged as a single composed obligation (see evidence not_decided).', ref='5 C10'),
+ 'C05': dict(tech='Verus contracts (Hamilton product from its definition, conjugate, inverse, norm, q v q*, rotation_from_to_3d by cases, into_angle_axis) on the extracted quaternion code + z3 (QF_NRA) lemmas for associativity, norm multiplicativity, conjugate anti-homomorphism, two-sided inverse, action == matrix, composition, from-to (generic and exactly-opposite), angle-axis round trip, glued by theorem functions',
+             text='Deductive proof over all real quaternion components: Mul is the Hamilton product; associativity, identity neutral, |pq|^2=|p|^2|q|^2, conj(pq)=conj(q)conj(p), q q^-1 = q^-1 q = 1 for non-zero q; for unit q, q*v (Vec3, and Vec4 leaving w) equals Mat3/Mat4::from(q)*v in both layouts and (pq)*v = p*(q*v); rotation_from_to_3d returns a unit quaternion mapping u onto (|u|/|v|)v in the generic branch and onto -u for exactly opposite directions (both antiparallel sub-branches); into_angle_axis followed by rotation_3d reproduces a unit quaternion (unit axis, angle in [0,2pi]).',
+             note=TB + 'acos_r axiom (cos(acos x)=x, sin(acos x)=sqrt(1-x^2), range) and eps_r in (0,1). The epsilon sliver of rotation_from_to_3d and the s < eps branch of into_angle_axis are only contracted, not given a property theorem.', ref='5 C05'),
  'C06': dict(tech='Verus contracts (cofactor/Leibniz determinant, adjugate/determinant inverse) on the extracted determinant/inverted/Mul functions + z3 (QF_NRA) lemmas for det multiplicativity, transpose invariance and M*adj/det = I, glued by Verus-checked theorem functions over the real API',
              text='Deductive proof: determinant (2,3,4; both layouts) equals the cofactor expansion; Mat4::inverted (2x2-block algorithm through the real shuffle/mat2 helper code incl. the bit-packed ShuffleMask4) returns adj(M)/det(M) whenever det != 0; theorem functions calling the real API prove det(M^T)=det(M), layout invariance, det(AB)=det(A)det(B) and M*M^-1 = M^-1*M = I for every real matrix with non-zero determinant, with the polynomial/rational identities discharged by z3 (nlsat / solve-eqs+smt portfolio).',
              note=TB + 'The rigid and affine fast inverses are not yet under contract (listed under not_decided).', ref='5 C06'),
